@@ -2,6 +2,7 @@
 from __future__ import annotations
 
 import ast
+from fractions import Fraction
 import re
 from typing import Dict, List, Optional, Set, Tuple
 
@@ -464,6 +465,19 @@ def lay_out(template: str, args: List[ast.expr]) -> Optional[List[Tuple[int, int
     return out
 
 
+def _through_helper(enc: FuncInfo, prog, e, depth: int = 0):
+    """self.<helper>() with no arguments -> the helper's single returned expression (locals expanded)."""
+    from ..astutil import expand_locals
+    if isinstance(e, ast.Call) and not e.args and not e.keywords and (call_chain(e) or ("",))[0] == "self" and len(call_chain(e) or ()) == 2 \
+            and enc.cls is not None and depth < 3:
+        m = prog.find_method(enc.cls, call_chain(e)[1])
+        if m is not None:
+            rets = [n for n in ast.walk(m.node) if isinstance(n, ast.Return) and n.value is not None]
+            if len(rets) == 1:
+                return _through_helper(m, prog, expand_locals(rets[0].value, m.node), depth + 1)
+    return e
+
+
 def field_value(layout, off: int, n: int):
     """Literal (unsigned) value of a field, or the placeholder expression covering exactly that field, or None."""
     lits = [x for x in layout if isinstance(x[2], int) and off <= x[0] < off + n]
@@ -549,49 +563,32 @@ def r4(ctx: Ctx, rep: Report):
     if None in (enc, decf, rng):
         raise AnalysisError("ScheduleType.encode_power / decode_power / is_in_range missing")
 
-    def factor(fn: FuncInfo, member: str) -> Optional[object]:
-        for p in enumerate_paths(prog, fn, no_raise):
-            sel = None
-            consistent = True
-            for ev in p.events:
-                if ev.kind == "test" and isinstance(ev.node, ast.Compare) and norm(ev.node.left) == "self":
-                    nm = norm(ev.node.comparators[0]).split(".")[-1]
-                    if (nm == member) != ev.data:
-                        consistent = False
-            if not consistent or p.end != "return":
-                continue
-            s = Sym.for_function(prog, fn)
-            l = s.lin(p.end_node.value)
-            v = ("var", fn.params[1])
-            if set(l.terms) == {v} and l.const == 0:
-                return l.terms[v]
-            return None
-        return None
-
+    # The three methods are pure functions of (enum member, int): they are constant-folded for every percentage the
+    # setters can request (-100 .. 100) - encode, range check of the encoded value, decode.
+    from ..constfold import fold_function
+    members = prog.enum_members(st)
     for member in ("ECO_MODE", "ECO_MODE_745"):
-        fe, fd = factor(enc, member), factor(decf, member)
-        ok = fe is not None and fd is not None and fe * fd == 1
-        rep.check(ok, "C19.R4", "power-scale:%s" % member, enc.loc(), "%s: encode_power x%s, decode_power x%s" % (member, fe, fd),
-                  bad="ScheduleType.%s: encode_power scales by %s and decode_power by %s - the requested eco power does not read back" % (member, fe, fd))
-        # range admits 100 % after scaling
-        bound = None
-        for p in enumerate_paths(prog, rng, no_raise):
-            good = True
-            for ev in p.events:
-                if ev.kind == "test" and isinstance(ev.node, ast.Compare) and norm(ev.node.left) == "self":
-                    nm = norm(ev.node.comparators[0]).split(".")[-1]
-                    if (nm == member) != ev.data:
-                        good = False
-            if good and p.end == "return" and isinstance(p.end_node.value, ast.Compare) and len(p.end_node.value.ops) == 2:
-                try:
-                    lo = prog.consteval(p.end_node.value.left, rng.module)
-                    hi = prog.consteval(p.end_node.value.comparators[1], rng.module)
-                    bound = (lo, hi)
-                except NotConst:
-                    pass
-        okb = bound is not None and fe is not None and bound[0] <= -100 * fe and 100 * fe <= bound[1]
-        rep.check(okb, "C19.R4", "power-range:%s" % member, rng.loc(), "%s: is_in_range %s admits +-100 %% scaled by %s" % (member, bound, fe),
-                  bad="ScheduleType.%s: is_in_range %s refuses the encoding of 100 %% (x%s): the written group cannot be read back" % (member, bound, fe))
+        if member not in members:
+            raise AnalysisError("ScheduleType.%s missing" % member)
+        bad_scale = bad_range = None
+        factor_seen = set()
+        try:
+            for pct in range(-100, 101):
+                e = fold_function(prog, enc, args={"self": members[member], "value": pct})
+                if pct:
+                    factor_seen.add(Fraction(e, pct) if isinstance(e, int) else None)
+                if bad_range is None and fold_function(prog, rng, args={"self": members[member], "value": e}) is not True:
+                    bad_range = (pct, e)
+                d = fold_function(prog, decf, args={"self": members[member], "value": e})
+                if bad_scale is None and d != pct:
+                    bad_scale = (pct, e, d)
+        except NotConst as ex:
+            raise AnalysisError("ScheduleType power methods cannot be folded for %s: %s" % (member, ex))
+        fe = sorted(factor_seen, key=lambda x: (x is None, x))[0] if factor_seen else None
+        rep.check(bad_scale is None, "C19.R4", "power-scale:%s" % member, enc.loc(), "%s: decode_power(encode_power(p)) == p for every p in -100..100 (x%s)" % (member, fe),
+                  bad="ScheduleType.%s: %s %% is encoded as %s and decoded as %s - the requested eco power does not read back" % ((member,) + (bad_scale or (0, 0, 0))))
+        rep.check(bad_range is None, "C19.R4", "power-range:%s" % member, rng.loc(), "%s: is_in_range admits the encoding of every p in -100..100" % member,
+                  bad="ScheduleType.%s: is_in_range refuses %s, the encoding of %s %%: the written group cannot be read back" % ((member,) + ((bad_range or (0, 0))[::-1])))
 
 
 def _signed(v: int, nbytes: int) -> int:
@@ -617,7 +614,7 @@ def _check_conjunct(prog, enc: FuncInfo, cj: ast.expr, lay, fields, kind: str) -
         if fv[0] == "lit":
             return [] if _signed(fv[1], fields[attr][1]) in allowed else ["%s = %d not in %s" % (attr, fv[1], sorted(allowed))]
         vals = set()
-        e = fv[1]
+        e = _through_helper(enc, prog, fv[1])
         if isinstance(e, ast.IfExp):
             for b in (e.body, e.orelse):
                 try:
